@@ -8,7 +8,7 @@
    structure (slots incl. emptied ones, child arrays, parent ids), node ids
    canonicalised by a depth-first walk from the root on both sides. *)
 From Coq Require Import List ZArith NArith Bool.
-From SopVerif Require Import OMap Btree.
+From SopVerif Require Import OMap Btree BtreeSim.
 Import ListNotations.
 Local Open Scope Z_scope.
 
@@ -30,13 +30,6 @@ Definition cs_parts (st : cstep) : Z * Z * Z * Z * Z * Z :=
   | CR a h r d => (8, a, 0, h, r, d)
   end.
 Inductive btcase := BtCase (L : Z) (unique lb inmem spec : bool) (steps : list (list cstep)).
-
-Fixpoint items_eqb (a b : list item) : bool :=
-  match a, b with
-  | [], [] => true
-  | x :: a', y :: b' => item_eqb x y && items_eqb a' b'
-  | _, _ => false
-  end.
 
 Definition erase_err (inmem : bool) (e : ekind) : ekind :=
   if inmem then match e with EErr => ENone | _ => e end else e.
@@ -111,21 +104,6 @@ Definition obs_vec (inmem : bool) (s : bstate) (r : result) : list Z :=
 (* djb2 over the vector (entries offset to be non-negative), modulo 2^32 *)
 Definition djb (l : list Z) : Z :=
   fold_left (fun h x => Z.land (h * 33 + (x + 1048576)) 4294967295) l 5381.
-
-Definition same_cursor (s : omap) (b : bstate) : bool :=
-  match cur s with
-  | CNone => N.eqb (bcur_node b) 0
-  | CGhost => negb (N.eqb (bcur_node b) 0) &&
-              match getn b (bcur_node b) with
-              | Some n => (bcur_idx b <? 0) || (ncount n <=? bcur_idx b)
-              | None => true
-              end
-  | CAt i => negb (N.eqb (bcur_node b) 0) &&
-             match getn b (bcur_node b), nth_error (items s) i with
-             | Some n, Some x => (0 <=? bcur_idx b) && (bcur_idx b <? ncount n) && item_eqb (slot n (bcur_idx b)) x
-             | _, _ => false
-             end
-  end.
 
 (* one call: the node-level model must reproduce the recorded digest; while the
    run is inside the specification (every step when spec = true, every step but
